@@ -249,6 +249,22 @@ def check_numbers(ctx, prog):
             ctx.undecided('C05.numbers', f['pq'], role + ':non-finite values never formatted', fwhere(f, sn[0]['l']), 'a guard of the snprintf call that mentions the argument is not evaluable for inf / NaN')
         else:
             ctx.ok('C05.numbers', f['pq'], role + ':non-finite values never formatted', fwhere(f, sn[0]['l']), 'the guards of snprintf exclude inf, -inf and NaN')
+        # ... and every finite value does: the same guards evaluated for zero, one, the smallest and the largest finite magnitudes
+        import struct
+        big = 1.7976931348623157e308 if flt == 'double' else struct.unpack('<f', struct.pack('<I', 0x7f7fffff))[0]
+        tiny = 5e-324 if flt == 'double' else struct.unpack('<f', struct.pack('<I', 1))[0]
+        fin = []
+        for v in (0.0, -0.0, 1.0, -1.0, tiny, -tiny, big, -big):
+            ev = _b.Bound(prog, f, {f['params'][0]['id']: v}, {})
+            fin.append((v, _b.admitted3(ev, g.of(sn[0]), g, relevant=lambda c_: any(w.get('k') == 'var' and w.get('id') == f['params'][0]['id'] for w in walk_expr(q.expand(f, c_))))))
+            ctx.evaluations += 1
+        lost = [v for v, r_ in fin if r_ is False]
+        if lost:
+            ctx.violation('C05.numbers', f['pq'], role + ':every finite value is formatted', fwhere(f, sn[0]['l']), 'the guards of snprintf exclude the finite value %r: it is written as a non-finite marker and decodes as infinity / NaN' % lost[0])
+        elif any(r_ is None for v, r_ in fin):
+            ctx.undecided('C05.numbers', f['pq'], role + ':every finite value is formatted', fwhere(f, sn[0]['l']), 'a guard of the snprintf call is not evaluable for a finite argument')
+        else:
+            ctx.ok('C05.numbers', f['pq'], role + ':every finite value is formatted', fwhere(f, sn[0]['l']), 'the guards of snprintf admit 0, +-1, the smallest subnormal and the largest finite %s' % flt)
     f = fn1(prog, 'asl::XdlEncoder::new_number', '(int)')
     ctx.analysed(f)
     rs = [e for e in fn_exprs(f) if e.get('k') == 'call' and e.get('pq') == 'asl::String::resize']
